@@ -22,7 +22,6 @@ import reprlib
 import string
 import sys
 import time
-import urllib.parse
 
 # Typing imports
 from typing import Any, Callable, Dict, List, Optional, Tuple, Union
@@ -298,11 +297,11 @@ class HttpBeaconClient:
 
         self.get_verb: bytes = self.c2http.get_verb
         self.get_uri: str = random.choice(self.bconfig.uris)
-        self.task_url: str = urllib.parse.urljoin(self.base_url, self.get_uri)
+        self.task_url: str = self._url(self.get_uri)
 
         self.submit_verb: bytes = self.c2http.submit_verb
         self.submit_uri: str = self.c2http.submit_uri.decode()
-        self.callback_url: str = urllib.parse.urljoin(self.base_url, self.submit_uri)
+        self.callback_url: str = self._url(self.submit_uri)
 
         self.sleeptime: int = self.bconfig.settings["SETTING_SLEEPTIME"] if sleeptime is None else sleeptime
         self.jitter: int = self.bconfig.settings["SETTING_JITTER"] if jitter is None else jitter
@@ -354,6 +353,13 @@ class HttpBeaconClient:
             body=b"",
         )
 
+    def _url(self, uri: str) -> str:
+        """Return the URL for request `uri` on the Team Server.
+
+        The uri is a path on that server: not a reference that is to be resolved ("//a/b" would name another host).
+        """
+        return self.base_url + (uri if uri.startswith("/") else "/" + uri)
+
     def get_sleep_time(self) -> float:
         """Return the sleep time with jitter for the beacon loop."""
         return self.sleeptime - random.uniform(0, self.sleeptime * self.jitter / 100)
@@ -386,7 +392,7 @@ class HttpBeaconClient:
             request=self._initial_get_request(),
         )
 
-        url = urllib.parse.urljoin(self.base_url, req.uri.decode())
+        url = self._url(req.uri.decode())
         params = {k.decode(): v.decode() for k, v in req.params.items()}
         try:
             self.logger.debug("requesting : %r", req)
@@ -438,7 +444,7 @@ class HttpBeaconClient:
         )
 
         # Construct url for callback
-        url = urllib.parse.urljoin(self.base_url, req.uri.decode())
+        url = self._url(req.uri.decode())
         params = {k.decode(): v.decode() for k, v in req.params.items()}
         try:
             response = httpx.request(
